@@ -6,3 +6,10 @@ PROPERTY = "C14"
 CONTRACTS = R.select(R.iterative_inmem + R.iterative_file, {"C14"})
 CALLEES = {**R.INMEM_CALLEES, **R.FILE_CALLEES}
 LIB = filemodel.install_repo_models({})
+
+
+def EXTRA():
+    # the public entry point hands request, budget and batching options to the function that does the work, on both paths
+    from jvc import effects
+    return effects.check_option_forwarding(["thejoker.thejoker.TheJoker.iterative_rejection_sample"], PROPERTY,
+                                           must_flow=[("max_prior_samples", "iterative_rejection_inmem", "prior_samples_batch")])
